@@ -81,8 +81,12 @@ def errClass : Err → Json
   | .valueError _ => .str "ValueError"
   | .other s => .str s
 
-def sortNames (l : List (String × Rat)) : List (String × Rat) :=
-  (sortDedup (l.map (·.1))).filterMap fun k => (l.lookup k).map fun v => (k, v)
+def insertPair (x : String × Rat) : List (String × Rat) → List (String × Rat)
+  | [] => [x]
+  | y :: ys => if x.1 < y.1 || (x.1 == y.1 && x.2 ≤ y.2) then x :: y :: ys else y :: insertPair x ys
+
+/-- sort by name, keeping duplicates (`.loc[names]` repeats a label that is listed twice) -/
+def sortNames (l : List (String × Rat)) : List (String × Rat) := l.foldr insertPair []
 
 def ansJ (q : Query) : Except Err Ans → Json
   | .error e => Json.mkObj [("err", errJ e)]
